@@ -7,6 +7,7 @@ a freshly built graph of the same shape must answer identically (rebuild oracle,
 import re
 
 from .. import core, runner
+from . import worldcommon
 from . import c03
 
 THEOREMS = ["ZI.Graph2.C02_fresh_thm", "ZI.Graph2.C02_implied", "ZI.Graph2.C02_extends", "ZI.Graph2.C02_fresh",
@@ -223,8 +224,14 @@ def check(tier):
                 if (hs.get("sro"), hs.get("imp")) != (fs.get("sro"), fs.get("imp")):
                     fails.append(dict(mode=m, script=s, message="after the rebasing history node answers %r, a freshly built graph of the same shape answers %r (%s)" % (hist.get(l), fresh.get(l), l), observed=hist.get(l)))
             k += 1
+    # class / instance / super-proxy specifications (declarations.py's own change propagation) under declaration histories
+    wf = worldcommon.stale_stream("C02", ("SRO-STALE", "IMPLIED-STALE"), dict(quick=40, thorough=800), "cached resolution order / extension set")(chk, tier)
+    worldcommon.report_world(chk, wf)
+    fails += wf
     seen = set()
     for f in fails:
+        if f.get("layer") == "world":
+            continue
         k = msg_kind(f["message"])[:80]
         if k in seen:
             continue
@@ -248,6 +255,8 @@ def check(tier):
 
 def replay(path):
     rep = runner.load_replay(path)
+    if rep.get("layer") == "world":
+        return worldcommon.replay_world("C02", rep, path)
     script = rep["script"]
     mode = rep.get("mode", "c")
     out = core.run_impl("graph", script, mode)
